@@ -76,9 +76,9 @@ def statement_check(ctx, scn, run, i, case):
 
 def run(ctx):
     rnd = ctx.rnd
-    ctx.rule = ("row sequences of 0-10 rows over key alphabets of size 2-3 (duplicates at every pair of positions), key sets of 1-3 fields (a third of them may be empty, the empty cell being one more key value), "
+    ctx.rule = ("row sequences of 0-10 rows over key alphabets of size 2-3 (duplicates at every pair of positions), key sets of 1-3 fields (Integer, plugin and Text fields whose values contain commas and blanks; a third of them may be empty, the empty cell being one more key value), "
                 "DistinctCount with all six operators x thresholds 0-4, interleaved rows rejected by a field or by another check, one or two checks in either order, "
-                "three error modes run one after the other on the same CID object in any order (half of the time with all Reader objects created up front); statement evaluated on the implementation's trace + model comparison; distinct = distinct (CID, table, mode); "
+                "three error modes and the validate-only API (with and without validation limit) run one after the other on the same CID object in any order (half of the time with all Reader objects created up front); statement evaluated on the implementation's trace + model comparison; distinct = distinct (CID, table, mode); "
                 "non-trivial = at least two data rows")
     n = 1500 if ctx.tier == "quick" else 20000
     scns = []
@@ -89,7 +89,11 @@ def run(ctx):
             # a third of the fields may be empty: the empty cell is then one more key value (also for keys made of empty cells only)
             may_be_empty = rnd.random() < 0.35
             extra = [""] if may_be_empty else []
-            if rnd.random() < 0.7:
+            if rnd.random() < 0.3:
+                # text keys containing the characters a naive joined key would use as separator
+                fields.append({"name": "f%d" % j, "type": "Text", "empty": may_be_empty, "length": "", "rule": "",
+                               "good": ["a", "a, b", "b", "b, a", ", ", "a,"] + extra, "bad": []})
+            elif rnd.random() < 0.7:
                 fields.append({"name": "f%d" % j, "type": "Integer", "empty": may_be_empty, "length": "", "rule": "1...3",
                                "good": ["1", "2", "3"][:rnd.randint(2, 3)] + extra, "bad": ["x", "9"]})
             else:
@@ -117,6 +121,9 @@ def run(ctx):
         rnd.shuffle(modes)
         early = rnd.random() < 0.5
         runs = [{"kind": "R", "api": "c", "mode": mode, "limit": None, "rows": table, "close": True, "early": early} for mode in modes]
+        # the validate-only API, without and with a validation limit (rows beyond the limit do not reach the checks)
+        vlimit = rnd.choice([None, None] + list(range(1, len(table) + 2)))
+        runs.insert(rnd.randint(0, 3), {"kind": "R", "api": "v", "mode": "raise", "limit": vlimit, "stop": vlimit, "rows": table})
         scns.append({"format": "delimited", "allowed": None, "fields": fields, "checks": checks, "header": header, "runs": runs})
     for scn, mruns, iruns in engine.run_scenarios(scns):
         sc = engine.strip_scn(scn)
@@ -132,12 +139,12 @@ def run(ctx):
             continue
         case = {"scenario": sc, "model": mruns, "impl": [engine.public_impl(i) for i in iruns]}
         kinds = "".join(c["kind"] for c in scn["checks"])
-        ctx.count(key=repr(sc), nontrivial=len(table) - scn["header"] >= 2, branch="%s:%s" % (kinds, "dupl" if ":C" in mruns[0]["ev"] else "nodupl"))
+        ctx.count(key=repr(sc), nontrivial=len(table) - scn["header"] >= 2, branch="%s:%s" % (kinds, "dupl" if ":C" in next(m for m, r in zip(mruns, scn["runs"]) if r["api"] == "c")["ev"] else "nodupl"))
         ctx.sample(case)
         for k, (run, m, i) in enumerate(zip(scn["runs"], mruns, iruns)):
             statement_check(ctx, scn, run, i, case)
             diffs = engine.compare_run(scn, run, m, i)
-            pinned = [d for d in diffs if d in ("ev", "fin", "close")]
+            pinned = [d for d in diffs if d in ("ev", "fin", "close", "outcome")]
             if pinned:
                 ctx.violation("C05:model:%s:%s" % (run["mode"], "+".join(pinned)), "run %d: implementation %r, model %r" % (k, engine.public_impl(i), m), case)
             elif diffs:
